@@ -678,9 +678,14 @@ def _decorate_fn_or_cls(decorator,
     decorated_class = cls
     construction_fn = _find_class_construction_fn(decorated_class)
     decorated_fn = decorator(_ensure_wrappability(construction_fn))
-    if construction_fn.__name__ == '__new__':
+    # The name it was found under, not the function's own `__name__` (which
+    # differs for, e.g., `__init__ = _shared_init`).
+    construction_name = next(
+        name for base in inspect.getmro(decorated_class)  # pytype: disable=wrong-arg-types
+        for name in ('__init__', '__new__') if name in base.__dict__)
+    if construction_name == '__new__':
       decorated_fn = staticmethod(decorated_fn)
-    setattr(decorated_class, construction_fn.__name__, decorated_fn)
+    setattr(decorated_class, construction_name, decorated_fn)
   return decorated_class
 
 
